@@ -19,7 +19,7 @@ CONSTANTS MShapes,      \* shape ids used for new expectations (run-time bounds 
           MFns,         \* functions that are called
           MaxCreate,    \* total number of expectations / monitors ever created
           MaxN,         \* cap on the call count of an expectation (state constraint)
-          UseMove, UseDestroyMock, UseDestroySeq, UseMonitors, UseWith
+          UseMove, UseDestroyMock, UseDestroySeq, UseMonitors, UseWith, UseTracers, UseReporters
 
 VARIABLES st, g
 vars == <<st, g>>
@@ -34,7 +34,9 @@ G0 == [clock |-> 0,
        passed |-> [h \in H |-> {}],
        named |-> [s \in Slots |-> FALSE],
        eol |-> [s \in Slots |-> 0],
-       owner |-> [s \in Slots |-> -1]]
+       owner |-> [s \in Slots |-> -1],
+       tstamp |-> [t \in Trs |-> 0],          \* construction stamp of live tracers (0 = not alive)
+       rinst |-> 1, okinst |-> 1]             \* reporter / OK reporter installed last
 
 (* ------------------------------------------------------------------ *)
 (* declarative notions                                                  *)
@@ -96,6 +98,9 @@ GhostUpdate(gg, s, op, r) ==
              PassAll(s, g1, [i \in 1..Len(s.obj[a[1]].mons) |-> MonH(s.obj[a[1]].mons[i])])
         [] op.e = "dmock" -> [g1 EXCEPT !.owner = [x \in Slots |-> IF gg.owner[x] = a[1] THEN -1 ELSE gg.owner[x]]]
         [] op.e = "mmock" -> [g1 EXCEPT !.owner = [x \in Slots |-> IF gg.owner[x] = a[1] THEN a[2] ELSE gg.owner[x]]]
+        [] op.e = "tracer" -> [g1 EXCEPT !.clock = gg.clock + 1, !.tstamp[a[1]] = gg.clock + 1]
+        [] op.e = "dtracer" -> [g1 EXCEPT !.tstamp[a[1]] = 0]
+        [] op.e = "setrep" -> [g1 EXCEPT !.rinst = a[1], !.okinst = IF a[2] = 1 THEN a[1] ELSE gg.okinst]
         [] OTHER -> g1
 
 (* ------------------------------------------------------------------ *)
@@ -122,7 +127,11 @@ CallOk(s, gg, m, f, args, r) ==
            /\ \A x \in Slots \ {d} : post.exp[x].n = s.exp[x].n                          \* C02 frame
            /\ \A i \in 1..Len(o.sr) : o.sr[i][2] = d                                    \* C08
            /\ o.reps = <<>>
-           /\ Len(o.oks) = 1 /\ o.oks[1].ent = d                                        \* C16
+           /\ Len(o.oks) = 1 /\ o.oks[1].ent = d /\ o.oks[1].r = gg.okinst                \* C16
+           /\ LET live == {t \in Trs : gg.tstamp[t] # 0} IN                             \* C17
+              IF live = {} THEN o.trs = <<>>
+              ELSE /\ Len(o.trs) = 1 /\ o.trs[1].ent = d /\ o.trs[1].args = args
+                   /\ \A t \in live : gg.tstamp[o.trs[1].t] >= gg.tstamp[t]
            /\ post.exp[d].n <= post.exp[d].hi                                           \* C03
       /\ o.acc = 0 =>
            /\ Len(o.reps) = 1 /\ o.reps[1].sev = 0                                      \* C01, C15
@@ -206,6 +215,8 @@ TransOk(s, gg, op, r) ==
     [] op.e = "dobj"    -> DestroyObjOk(s, gg, a[1], r)
     [] op.e = "unwatch" -> UnwatchOk(s, gg, a[1], r)
     [] op.e = "expect"  -> (r.obs.thr = "logic") <=> (a[18] > a[19])                    \* C03: inverted RT_TIMES
+    [] op.e = "setrep"  -> /\ r.obs.probe = (IF a[2] = 1 THEN <<gg.rinst, 100 + gg.okinst>> ELSE <<gg.rinst>>)   \* C16
+                           /\ r.st.rep = a[1]
     [] OTHER -> TRUE
 
 (* ------------------------------------------------------------------ *)
@@ -240,6 +251,11 @@ Ops(s, gg) ==
   \cup (IF UseDestroyMock THEN {[e |-> "dmock", a |-> <<m>>] : m \in AliveMocks(s)} ELSE {})
   \cup (IF UseMove THEN {[e |-> "mmock", a |-> <<m, m2>>] : m \in AliveMocks(s), m2 \in Mocks \ AliveMocks(s)} ELSE {})
   \cup (IF UseDestroySeq THEN {[e |-> "dseq", a |-> <<q>>] : q \in AliveSeqs(s)} ELSE {})
+  \cup (IF UseTracers
+        THEN    {[e |-> "tracer", a |-> <<t, 1>>] : t \in {t2 \in Trs : gg.tstamp[t2] = 0 /\ gg.clock < MaxCreate}}
+           \cup {[e |-> "dtracer", a |-> <<t>>] : t \in {t2 \in Trs : gg.tstamp[t2] # 0}}
+        ELSE {})
+  \cup (IF UseReporters THEN {[e |-> "setrep", a |-> <<rr, ok>>] : rr \in {1, 2}, ok \in {0, 1}} ELSE {})
   \cup (IF UseMonitors
         THEN    {[e |-> "obj", a |-> <<o>>] : o \in {o2 \in Objs : ~s.obj[o2].alive /\ gg.clock < MaxCreate}}
            \cup (IF FreeMon(s) = 0 \/ gg.clock >= MaxCreate THEN {}
@@ -310,5 +326,10 @@ Inv_C14 ==      \* linkage is well formed whatever was destroyed or moved, in wh
         Alive(st, st.pend[q][i]) /\ q \in QsSet(st, st.pend[q][i])
   /\ \A q \in Seqs : Cardinality(Range(st.pend[q])) = Len(st.pend[q])
 
-Inv_All == Inv_C03 /\ Inv_C04 /\ Inv_C06 /\ Inv_C13 /\ Inv_C14
+Inv_C17 ==      \* the tracer stack holds exactly the live tracers, innermost (newest) last
+  /\ Range(st.trk) = {t \in Trs : g.tstamp[t] # 0}
+  /\ \A i \in 1..(Len(st.trk) - 1) : g.tstamp[st.trk[i]] < g.tstamp[st.trk[i + 1]]
+Inv_C16 == st.rep = g.rinst /\ st.okrep = g.okinst
+
+Inv_All == Inv_C03 /\ Inv_C04 /\ Inv_C06 /\ Inv_C13 /\ Inv_C14 /\ Inv_C16 /\ Inv_C17
 =============================================================================
